@@ -248,6 +248,24 @@ def _constants(case, V, st):
                 bad = [k for k in A if A[k] != B.get(k)]
                 if bad:
                     V('constants-roundtrip', 'str(Constants) -> get_constants changes %r (%r)' % (bad, kw))
+            # the saving entry point itself, called for a sequence of different parameter sets on the same folder: the folder must
+            # describe the LAST one (serial world; the collective behaviour of setupSave is C06's)
+            from pgv import sim
+            MPI = sim.setup()
+            from pygyro.utilities.savingTools import setupSave
+            folder = os.path.join(d, 'run')
+            for kw in ({'eps': 1e-3, 'm': 3, 'dt': 1}, {'eps': 0.25, 'm': 5, 'dt': 4, 'npts': [6, 8, 7, 6]}, {}):
+                c = Constants()
+                for k, v in kw.items():
+                    setattr(c, k, v)
+                got = setupSave(c, folder, MPI.COMM_WORLD)
+                st['evals'] += 1
+                st['nontrivial'] += 1
+                B = _attrs(get_constants(os.path.join(folder, 'initParams.json')))
+                A = _attrs(c)
+                bad = [k for k in A if A[k] != B.get(k)]
+                if bad or got != folder:
+                    V('setupSave-folder-does-not-describe-last-saved-constants', 'setupSave(%r) on a folder that already held parameters: file differs in %r' % (kw, bad))
             return
         base = json.load(open(os.path.join(env.REPO, 'testSetups', 'iota0.json')))
         # every key that an expression refers to gets a NON-default value, otherwise a parser that falls back to the
